@@ -704,15 +704,21 @@ func ruleSelKey(r *Run) {
 			if f := loadedField(v); f != nil {
 				read[f] = true
 			}
-			if c, ok := v.(*ssa.Call); ok {
-				if callee := c.Call.StaticCallee(); callee != nil && p.InModule(callee) {
-					fns = append(fns, callee)
-				}
-			}
-			if in, ok := v.(ssa.Instruction); ok {
-				for _, op := range in.Operands(nil) {
-					if op != nil && *op != nil {
-						walk(*op, depth+1)
+			// only the test itself is read: comparisons, negations, loads, len(), and a predicate method of the
+			// selector (looking further - through the operands of other calls or through phis - reaches the
+			// lookup itself from the loop over its result and would accept every test of the function)
+			switch x := v.(type) {
+			case *ssa.BinOp:
+				walk(x.X, depth+1)
+				walk(x.Y, depth+1)
+			case *ssa.UnOp:
+				walk(x.X, depth+1)
+			case *ssa.Call:
+				if b, ok := x.Call.Value.(*ssa.Builtin); ok && b.Name() == "len" {
+					walk(x.Call.Args[0], depth+1)
+				} else if callee := x.Call.StaticCallee(); callee != nil && p.InModule(callee) && len(x.Call.Args) == 1 && callee.Signature.Recv() != nil {
+					if nm := namedOf(callee.Signature.Recv().Type()); nm != nil && nm.Obj().Name() == "ruleSelector" {
+						fns = append(fns, callee)
 					}
 				}
 			}
